@@ -43,6 +43,14 @@ def followup(stage, lines, model, checked, release, tier, rng):
                     t = K.api_prehash_sign(s, sk, msg, ctx, 1, "sha256").split(" "); t[6] = "real"
                     L.append("@impl " + " ".join(t))
                     _st["an"].append((L[-1], s, sk, K.frame(msg, ctx, "sha256")))
+                # crafted secret keys (extreme t0) make the ||c t0|| >= gamma2 and hint-count rejections reachable
+                small = p.gamma2 == (K.S.Q - 1) // 88
+                for (mm, fr, cnt) in ((1, 1.0, (150 if small else 10)), (p.k, 0.3, 20)):
+                    csk = K.craft_sk(s, sk, mm, fr, rng)
+                    for _ in range(cnt if tier == "quick" else 4 * cnt):
+                        msg = R(6)
+                        L.append("@impl sign::%s::signature %s %s 0 -" % (s, K.hx(msg), csk))
+                        _st["an"].append((L[-1], s, csk, msg))
                 # judge validation: signatures a test-skipping signer would emit
                 msg = R(20)
                 for kind in ("z-over", "r0-skip"):
